@@ -152,3 +152,60 @@ func HarnessC03DuplexPassthrough() {
 	}
 	check(bytesEq(got, data), "duplex Read delivers the body bytes unchanged")
 }
+
+// splitReader delivers data in two reads, split at `at`, then end-of-file
+// (with the last bytes or separately).
+type splitReader struct {
+	data        []byte
+	at          int
+	pos         int
+	eofWithLast bool
+}
+
+func (r *splitReader) Read(p []byte) (int, error) {
+	if r.pos >= len(r.data) {
+		return 0, errEOF()
+	}
+	if len(p) == 0 {
+		return 0, nil
+	}
+	end := len(r.data)
+	if r.pos < r.at {
+		end = r.at
+	}
+	if end-r.pos > len(p) {
+		end = r.pos + len(p)
+	}
+	n := copy(p, r.data[r.pos:end])
+	r.pos += n
+	if r.pos == len(r.data) && r.eofWithLast {
+		return n, errEOF()
+	}
+	return n, nil
+}
+
+// HarnessC03UnaryErrorBody: the JSON error body of a non-200 Connect unary
+// response decodes to the same code and message whether it arrives in one
+// read or split at any point.
+//
+//verif:harness property=C03 stubs=json,wire
+func HarnessC03UnaryErrorBody() {
+	msg := nondetString("message", 2)
+	assumeJSONSafe(msg)
+	body := c06WireError(true, "not_found", msg)
+	at := nondetInt("splitAt")
+	assume(at >= 0 && at <= len(body))
+	src := &splitReader{data: body, at: at, eofWithLast: nondetBool("eofWithLast")}
+	header := http.Header{"Content-Type": {"application/json"}}
+	tr := &cannedTransport{resp: &http.Response{StatusCode: 404, Status: "404 Not Found", ProtoMajor: 2, Header: header, Body: io.NopCloser(src)}}
+	client := NewClient[[]byte, []byte](tr, stackURL, WithCodec(&stackCodec{}), WithCompressMinBytes(1<<20))
+	in := []byte{1}
+	_, err := client.CallUnary(context.Background(), NewRequest(&in))
+	check(err != nil, "a non-200 unary response is an error")
+	ce, ok := asError(err)
+	check(ok, "the error is a *connect.Error")
+	if ok {
+		check(ce.Code() == CodeNotFound, "the error code sent by the server is decoded however the body is split across reads")
+		check(ce.Message() == msg, "the error message sent by the server is decoded however the body is split across reads")
+	}
+}
